@@ -25,6 +25,7 @@ func instrsOf[T ssa.Instruction](xs []T) []ssa.Instruction { return eng.AsInstrs
 
 func runC02(c *eng.Ctx, thorough bool) {
 	c02Routes(c)
+	c02MountRelative(c)
 	unauthFalse := map[string]bool{`^unauth$`: false}
 	unauthTrue := map[string]bool{`^unauth$`: true}
 
